@@ -137,6 +137,59 @@ def mod(rng):
     return bytes(out)
 
 
+def it_overdrive(nchn, mv, pan=0, nrows=64, smpval=32767):
+    """IT file (sample mode) whose `nchn` channels all start, on row 0, one looped 16-bit sample holding the
+    constant `smpval`, at full volume, channel pan `pan` (0 = hard left), mixing volume byte `mv`: the voices add
+    up coherently in the left accumulator words — the excluded point of the no-wrap theorem
+    (voices x sampleBound x level >= 2^31)."""
+    ln, nsmp, npat = 1, 1, 1
+    hdr = bytearray(b"IMPM" + b"c14 overdrive".ljust(26, b"\0") + b"\x04\x10")
+    hdr += struct.pack("<HHHH", ln, 0, nsmp, npat)
+    hdr += struct.pack("<HHHH", 0x0214, 0x0214, 0x09, 0)
+    hdr += bytes([128, mv, 6, 125, 128, 0]) + struct.pack("<HII", 0, 0, 0)
+    hdr += bytes([pan] * nchn + [0xA0] * (64 - nchn)) + bytes([64] * 64)
+    off = 192 + ln + 4 * nsmp + 4 * npat
+    sptr = off
+    off += 80
+    data = bytearray()
+    for r in range(nrows):
+        if r == 0:
+            for c in range(1, nchn + 1):
+                data += bytes([c | 0x80, 3, 60, 1])
+        data += b"\0"
+    pb = struct.pack("<HHI", len(data), nrows, 0) + data
+    pptr = off
+    off += len(pb)
+    n = 64
+    sh = bytearray(b"IMPS" + b"dc.raw".ljust(12, b"\0") + b"\0" + bytes([64, 1 | 2 | 0x10, 64]))
+    sh += b"dc".ljust(26, b"\0") + bytes([1, 32])
+    sh += struct.pack("<IIII", n, 0, n, 8363)
+    sh += struct.pack("<III", 0, 0, off) + bytes([0, 0, 0, 0])
+    return (bytes(hdr) + bytes([0]) + struct.pack("<I", sptr) + struct.pack("<I", pptr) + bytes(sh).ljust(80, b"\0") + pb
+            + struct.pack("<h", smpval) * n)
+
+
+# (file name, channels, mixing volume): the first two exceed 2^31 in the left accumulator words with the player's
+# default settings, the third reaches 64 * 32767 * 1024 = 2^31 - 65536 (the largest sum that still fits)
+OVERDRIVE = [("overdrive16_mv255.it", 16, 255), ("overdrive32_mv128.it", 32, 128), ("overdrive64_mv48.it", 64, 48)]
+
+
+def overdrive_modules(outdir):
+    os.makedirs(outdir, exist_ok=True)
+    paths = []
+    for name, nchn, mv in OVERDRIVE:
+        p = os.path.join(outdir, name)
+        data = it_overdrive(nchn, mv)
+        try:
+            same = open(p, "rb").read() == data
+        except OSError:
+            same = False
+        if not same:
+            open(p, "wb").write(data)
+        paths.append(p)
+    return paths
+
+
 def generate(outdir, seed, count=3):
     """Write `count` S3M and `count` MOD files; returns their paths."""
     os.makedirs(outdir, exist_ok=True)
